@@ -1992,7 +1992,7 @@ Lemma loop_arm_ok c : realb (token c) = true ->
      let* '(cond, c2) := (if is_k KDo c1 then ok (EBool true, c1) else expression T c1) in
      let* '(body, c3) := statement c2 in
      match prev c3 with
-     | Some cp => ok (SLoop cond body, cp)
+     | Some cp => ok (SLoop cond body, if is_k KNewline cp then cp else c3)
      | None => panic
      end).
 Proof.
@@ -2011,8 +2011,11 @@ Proof.
     destruct H3 as [S3 (l3 & P3 & M3)]. destruct H4 as [S4 (l4 & P4 & M4)].
     destruct (prev_some c3 l4 (pre c2) P4 M4) as [cq Eq]. rewrite Eq.
     destruct (prev_facts c3 l4 (pre c2) cq P4 M4 Eq) as [(m' & Pm) Sq].
-    apply b_ok. unfold StL, ltm. cbn [snd]. split; [lia|].
-    exists (m' ++ l3). rewrite Pm, P3, app_assoc. split; [reflexivity|]. apply mark_app_l. exact M3.
+    apply b_ok. unfold StL. cbn [snd]. destruct (is_k KNewline cq).
+    + unfold ltm. split; [lia|].
+      exists (m' ++ l3). rewrite Pm, P3, app_assoc. split; [reflexivity|]. apply mark_app_l. exact M3.
+    + unfold ltm. split; [lia|].
+      exists (l4 ++ l3). rewrite P4, P3, app_assoc. split; [reflexivity|]. apply mark_app_l. exact M3.
 Qed.
 
 Lemma ret_arm_ok c : realb (token c) = true ->
